@@ -44,6 +44,7 @@ META = {
                  'GEOPHIRESv3.main (chdir, argv[1])', 'geophires_x/__main__.py stash/restore', 'functools.lru_cache (LRU, maxsize)',
                  'the file system as a map path -> content', 'the simulation as an oracle content -> result | raises'],
     'assumptions': ['the simulation is a function of the content of its input file (sampled by the histories, not proved)',
+                    'not exercised: the class-level HDF5 table cache of AGSWellBores.data (CLGS inputs need data files that are not available offline)',
                     'request paths are absolute and normalised; hash(path) collision-free on the paths of a history',
                     'objects held as lru_cache keys stay alive, so identities of live Reservoir/Model objects are distinct',
                     'in-process CLI runs are executed with logging.config.fileConfig stubbed (it would write a log file into the source tree)'],
@@ -172,7 +173,7 @@ def build_pool(ctx, n):
             ok_ids.append(c)
         elif r[0] != 'ret':
             bad_ids.append(c)
-    ctx.count('pool', contents_ok=len(ok_ids), contents_failing=len(bad_ids),
+    ctx.count('pool', evaluations=len(contents), contents_ok=len(ok_ids), contents_failing=len(bad_ids),
               failing_kinds={refs.of(c)[2][:60]: 1 for c in bad_ids})
     return contents, refs, ok_ids, bad_ids
 
